@@ -11,7 +11,7 @@ from . import terms as tm
 from .terms import T, INT, BOOL, STR, BYTES, J
 from .values import (Sym, JVal, SymType, Obj, PyList, PyDict, ClassVal, FuncVal, BoundMethod, Builtin,
                      ModuleVal, Opaque, Raise, Unsupported, SymObjSeq, kind_of, to_term, as_value,
-                     kind_sort, is_sym)
+                     kind_sort, is_sym, GenExp, is_genexp)
 from . import values as V
 from . import lib as L
 from .lib import mk_exc, narrow, JList, JDict, int_of, seq_kind, is_list_kind, pylist_items, opaque_str
@@ -68,6 +68,7 @@ class Lib:
     setitem = staticmethod(L.setitem)
     to_str = staticmethod(L.to_str)
     concrete_items = staticmethod(lambda ip, st, it: concrete_items(ip, st, it))
+    materialise = staticmethod(lambda ip, st, v: materialise(ip, st, v))
     str_concat = staticmethod(L.str_concat)
 
     @staticmethod
@@ -351,7 +352,7 @@ def _noop(ip, st, args, kwargs):
 
 def concrete_items(ip, st, it):
     """Items of an iterable with a concrete spine, else None."""
-    if isinstance(it, tuple) and it and it[0] == "genexp":
+    if is_genexp(it):
         return None
     if isinstance(it, (PyList, tuple)):
         return pylist_items(st, it)
@@ -361,7 +362,7 @@ def concrete_items(ip, st, it):
         return list(it)
     if isinstance(it, range):
         return list(it)
-    if isinstance(it, tuple) and it and it[0] == "genexp":
+    if is_genexp(it):
         return None
     if isinstance(it, ConcreteIter):
         return it.items
@@ -471,9 +472,44 @@ def _type(ip, st, args, kwargs):
     raise Unsupported("type(%r)" % (v,))
 
 
+GENEXP_CONSUMERS = ("tuple", "list", "bytes", "sorted", "max", "min", "enumerate", "zip", "reversed", "dict", "set", "sum")
+
+
+def with_materialised_args(f):
+    """builtins that consume their iterable argument at once: a generator expression argument is first turned into the
+    list of the equivalent list comprehension (same evaluation order, same exceptions)"""
+    def g(ip, st, args, kwargs):
+        if not any(is_genexp(a) for a in args):
+            yield from f(ip, st, args, kwargs)
+            return
+        cur = [(st, [])]
+        for a in args:
+            nxt = []
+            for s1, acc in cur:
+                if isinstance(acc, Raise):
+                    nxt.append((s1, acc))
+                elif is_genexp(a):
+                    for s2, lst in materialise(ip, s1, a):
+                        nxt.append((s2, lst if isinstance(lst, Raise) else acc + [lst]))
+                else:
+                    nxt.append((s1, acc + [a]))
+            cur = nxt
+        for s1, acc in cur:
+            if isinstance(acc, Raise):
+                yield s1, acc
+            else:
+                yield from f(ip, s1, acc, kwargs)
+    return g
+
+
 def _mk_type(name):
     def ctor(ip, st, args, kwargs):
-        return TYPE_CTORS[name](ip, st, args, kwargs)
+        if name not in TYPE_CTORS:
+            raise Unsupported("%s(...) is not modelled" % name)
+        f = TYPE_CTORS[name]
+        if name in GENEXP_CONSUMERS:
+            f = with_materialised_args(f)
+        return f(ip, st, args, kwargs)
     b = Builtin(name, ctor)
     return b
 
@@ -542,7 +578,7 @@ def _bytes(ip, st, args, kwargs):
             else:
                 yield st1, Raise(mk_exc(st1, "ValueError", "bytes must be in range(0, 256)"))
         return
-    if isinstance(v, tuple) and v and v[0] == "genexp":
+    if is_genexp(v):
         raise Unsupported("bytes(genexp)")
     if isinstance(v, Sym) and v.kind == ("list", "int"):
         yield st, Sym("bytes", v.term)    # caller guarantees ranges (only used in spec mode)
@@ -644,7 +680,7 @@ def _list(ip, st, args, kwargs):
     if isinstance(v, LazyMap):
         yield from list_of_map(ip, st, v)
         return
-    if isinstance(v, tuple) and v and v[0] == "genexp":
+    if is_genexp(v):
         yield from materialise(ip, st, v)
         return
     items = concrete_items(ip, st, v)
@@ -900,6 +936,18 @@ def _map(ip, st, args, kwargs):
         yield s1, (acc if isinstance(acc, Raise) else ConcreteIter(acc))
 
 
+@builtin("reversed")
+def _reversed(ip, st, args, kwargs):
+    """reversed(seq) over a sequence with a concrete spine (consumed by a for loop / list / tuple)"""
+    (v,) = args
+    if isinstance(v, (PyDict,)) or (is_genexp(v)):
+        raise Unsupported("reversed of %s" % type(v).__name__)
+    items = concrete_items(ip, st, v)
+    if items is None:
+        raise Unsupported("reversed of a symbolic sequence")
+    yield st, ConcreteIter(list(reversed(items)))
+
+
 @builtin("sorted")
 def _sorted(ip, st, args, kwargs):
     h = EXTERNALS.get("builtins.sorted")
@@ -918,7 +966,7 @@ def _sorted(ip, st, args, kwargs):
 def _quant(ip, st, args, is_all):
     """all(...) / any(...)"""
     (v,) = args
-    if isinstance(v, tuple) and v and v[0] == "genexp":
+    if is_genexp(v):
         yield from quant_genexp(ip, st, v[1], is_all)
         return
     items = concrete_items(ip, st, v)
@@ -1360,7 +1408,7 @@ def _m_endswith(ip, st, recv, args, kwargs):
 
 def materialise(ip, st, v):
     """a generator expression consumed at once behaves like the list comprehension with the same clauses"""
-    if isinstance(v, tuple) and v and v[0] == "genexp":
+    if is_genexp(v):
         node = v[1]
         lc = ast.ListComp(elt=node.elt, generators=node.generators)
         ast.copy_location(lc, node)
@@ -1371,7 +1419,7 @@ def materialise(ip, st, v):
 
 @method("bytes", "join")
 def _m_bjoin(ip, st, recv, args, kwargs):
-    if isinstance(args[0], tuple) and args[0] and args[0][0] == "genexp":
+    if is_genexp(args[0]):
         for st1, lst in materialise(ip, st, args[0]):
             if isinstance(lst, Raise):
                 yield st1, lst
@@ -1494,7 +1542,7 @@ def _m_sstrip(ip, st, recv, args, kwargs):
 
 @method("str", "join")
 def _m_join(ip, st, recv, args, kwargs):
-    if isinstance(args[0], tuple) and args[0] and args[0][0] == "genexp" and not is_sym(recv):
+    if is_genexp(args[0]) and not is_sym(recv):
         mats = list(materialise(ip, st, args[0]))
         if len(mats) == 1 and not isinstance(mats[0][1], Raise) and concrete_items(ip, mats[0][0], mats[0][1]) is not None:
             yield from _m_join(ip, mats[0][0], recv, [mats[0][1]], kwargs)
@@ -1967,3 +2015,8 @@ def _m_rstrip(ip, st, recv, args, kwargs):
         yield st, recv.rstrip(*args)
         return
     yield st, Sym("str", str_rstrip(recv.term))
+
+
+for _n in GENEXP_CONSUMERS:
+    if _n in BUILTINS and _n not in TYPE_OBJS:
+        BUILTINS[_n] = Builtin(_n, with_materialised_args(BUILTINS[_n].impl))
